@@ -51,6 +51,9 @@ type history struct {
 	// FinalClose: call Close once more at the very end (otherwise the threads
 	// must have terminated by themselves after the stop).
 	FinalClose bool
+	// NilCtx: the scanner is created with a nil context (documented as allowed):
+	// Close is then the only way to stop it, and it has to work all the same.
+	NilCtx bool
 }
 
 func (h history) name() string {
@@ -60,6 +63,9 @@ func (h history) name() string {
 	}
 	if h.FinalClose {
 		d += " final-close"
+	}
+	if h.NilCtx {
+		d += " nil-context"
 	}
 	return fmt.Sprintf("%s%s procs=%d scans=%d headerAt=%d stop=%s post=%s", h.Format, d, h.Procs, h.K, h.HeaderAt, stopNames[h.Stop], h.Post)
 }
@@ -161,6 +167,9 @@ func scenario(h history, bound int) vexplore.Scenario {
 			)
 			main := func() {
 				ctx, cancel := vsched.WithCancel(nil)
+				if h.NilCtx {
+					ctx = nil
+				}
 				var s scanner
 				var ps *osmpbf.Scanner
 				if h.Format == "pbf" {
@@ -423,7 +432,7 @@ func postSeqs(maxLen int, alphabet string) []string {
 func main() {
 	kit.Main("C07", "model_checking", func(r *kit.Run) {
 		r.Rule("call histories (Header|Scan)^k ; stop in {Close, cancel, cancel from a second thread, cancel then Close, Close then cancel} ; post calls over {Scan, Err, Close, Header}; " +
-			"family E: damaged input (error recorded, then stop: Err keeps the earlier error), D=1; family S: fixed post sequence SECSEH, k in a grid, every schedule with <= D deviations, both priority configurations; family H: every post sequence of length <= 2 (quick) / 3 (thorough) and every k, default schedules (D=0); " +
+			"family N: scanners created with a nil context, stopped by Close, D=1; family E: damaged input (error recorded, then stop: Err keeps the earlier error), D=1; family S: fixed post sequence SECSEH, k in a grid, every schedule with <= D deviations, both priority configurations; family H: every post sequence of length <= 2 (quick) / 3 (thorough) and every k, default schedules (D=0); " +
 			"PBF input: header + 6 data blocks, XML input: 6 nodes and two 1.6 KB stretches of unknown elements and comments, read in 160-byte chunks; non-vacuous = the stop was issued with >= 4 file blocks unread (PBF) or before the end (XML); " +
 			"distinct_nontrivial = distinct complete operation sequences among non-vacuous executions")
 		r.Assume("promptness is a block count: the reader may begin at most 2 file blocks after the cancellation took effect (measured atomically at the cancelling operation); wall-clock latency is not measured")
@@ -502,6 +511,13 @@ func main() {
 				continue
 			}
 			scs = append(scs, scenario(history{Format: "xml", Procs: 1, HeaderAt: -1, Stop: stop, Post: "SECSE", Damaged: true}, 1))
+		}
+		// family N: nil context, stopped by Close
+		for _, k := range []int{0, 1, 3, N + 1} {
+			for _, p := range []int{1, 2} {
+				scs = append(scs, scenario(history{Format: "pbf", Procs: p, K: k, HeaderAt: -1, Stop: stopClose, Post: "SECSEH", NilCtx: true}, 1))
+			}
+			scs = append(scs, scenario(history{Format: "xml", Procs: 1, K: k, HeaderAt: -1, Stop: stopClose, Post: "SECSE", NilCtx: true}, 1))
 		}
 		// family H: call histories under the default schedules
 		postLen, hAts := 2, []int{-1}
